@@ -69,6 +69,10 @@ CLAIMS = {
          "Decides that no pattern operation can give '$', '*' or '>' a wildcard meaning in the middle of a token (each wildcard comparison is under a token-start guard; Values' exception is "
          "accepted only with its whole-token witness; the mux compares token[0]), that the three validators accept the same character range, and that tag replacement is one simultaneous pass. "
          "Agreement of the operations on every string and round-trips are not enumerated.", "DESIGN.md section 4 C17"),
+ "C09": ("who-may-read/write census of the ownership lists + dominance (default before read) + sibling comparison of the two subscription loops + predicate/dispatcher field-set agreement + possibly-empty-value use census",
+         "Decides that subscriptions and reset are built from the same defaulted lists, that request types x lists and the method wildcard are formed as documented, that every subscription passes "
+         "the in-channel with the right queue variant and propagates its error, that both subscription loops skip covered patterns (access loop: known finding), that default ownership looks at "
+         "the handler kinds the dispatcher serves, that an empty service path never becomes a bare token, and that reconnects re-announce ownership. Covering for arbitrary user lists is not decided.", "DESIGN.md section 4 C09"),
 }
 
 NA = {
